@@ -24,6 +24,9 @@ def as_view(I, st, v):
         v = I.load(st, v[1])
     if v[0] == "agg" and v[1] == "slice" and v[2] in I.lists:
         return v
+    if v[0] == "agg" and v[1] == "array" and v[2] == "" and len(v[4]) <= 8 and I.lists:
+        # an array literal (e.g. the promoted `&[]` an empty slice starts from) seen as a slice
+        return make_list(I, st, list(v[4]))
     return None
 
 
@@ -376,6 +379,14 @@ def m_index(I, st, fn, ce, args, line, depth, dest_ty, may_unwind):
             I.emit(st, {"k": "PANIC", "what": "slice index out of range %d..%d of %d" % (a, b, hi - lo)}, fn, line)
             return [("unwind", None, st)]
         return [("ret", view(lid, lo + a, lo + b), st)]
+    if ix[0] == "agg" and ix[2].endswith("::RangeToInclusive") and len(ix[4]) == 1 and ix[4][0][0] == "const":
+        b = ix[4][0][1] + 1
+        if lo + b > hi:
+            I.emit(st, {"k": "PANIC", "what": "slice index out of range"}, fn, line)
+            return [("unwind", None, st)]
+        return [("ret", view(lid, lo, lo + b), st)]
+    if ix[0] == "agg" and ix[2].endswith("::RangeFull"):
+        return [("ret", view(lid, lo, hi), st)]
     if ix[0] == "agg" and ix[2].endswith("::RangeTo") and len(ix[4]) == 1 and ix[4][0][0] == "const":
         b = ix[4][0][1]
         if lo + b > hi:
@@ -681,10 +692,61 @@ def m_range_next(I, st, fn, ce, args, line, depth, dest_ty, may_unwind):
     return [("ret", _opt(1, [Const(lo)]), st)]
 
 
+def _arr_len(I, t):
+    ln = str(t.get("len", "")).strip()
+    n = I.const_params.get(ln)
+    if n is None and ln.split("_")[0].isdigit():
+        n = int(ln.split("_")[0])
+    return n
+
+
 def m_mu_uninit(I, st, fn, ce, args, line, depth, dest_ty, may_unwind):
     if not getattr(I, "model_vecs", False):
         return None
+    # `MaybeUninit::<[X; N]>::uninit()`: one uninitialised array = N uninitialised slots
+    targs = [t for t in ce.get("args", []) if isinstance(t, dict) and t.get("k") not in ("region", "const")]
+    if targs and targs[0].get("k") == "array":
+        n = _arr_len(I, targs[0])
+        if n is not None and n <= 8:
+            return [("ret", ("agg", "adt", "std::mem::MaybeUninit", 0, (make_list(I, st, [("agg", "adt", "std::mem::MaybeUninit", 0, ())] * n),)), st)]
     return [("ret", ("agg", "adt", "std::mem::MaybeUninit", 0, ()), st)]
+
+
+def m_mu_as_mut_ptr(I, st, fn, ce, args, line, depth, dest_ty, may_unwind):
+    a = args[0]
+    if a[0] != "ref":
+        return None
+    v = I.load(st, a[1])
+    if v[0] == "agg" and v[2] == "std::mem::MaybeUninit" and v[4] and as_view(I, st, v[4][0]) is not None:
+        return [("ret", v[4][0], st)]          # pointer to the array == the modelled list (its first element is element 0)
+    return None
+
+
+def m_ptr_add(I, st, fn, ce, args, line, depth, dest_ty, may_unwind):
+    v = as_view(I, st, args[0])
+    if v is None or args[1][0] != "const" or not isinstance(args[1][1], int):
+        return None
+    lid, lo, hi = v[2], v[4][0][1], v[4][1][1]
+    k = lo + args[1][1]
+    if k > hi:
+        raise Undecided("pointer moved past the end of a modelled array")
+    return [("ret", view(lid, k, hi), st)]
+
+
+def m_ptr_write(I, st, fn, ce, args, line, depth, dest_ty, may_unwind):
+    """`ptr.write(v)` / `ptr::write(ptr, v)` where ptr designates an element of a modelled array"""
+    a = args[0]
+    loc = None
+    v = as_view(I, st, a)
+    if v is not None and v[4][0][1] < v[4][1][1]:
+        loc = elem_loc(v[2], v[4][0][1])
+    elif a[0] == "ref" and a[1][0] == "O" and a[1][1] in I.lists:
+        loc = a[1]
+    if loc is None or not getattr(I, "model_vecs", False):
+        return None
+    I.emit(st, {"k": "SLOT_WRITE", "slot": loc_s(loc), "val": args[1]}, fn, line)
+    st.heap[loc] = ("agg", "adt", "std::mem::MaybeUninit", 0, (args[1],))
+    return [("ret", UNIT, st)]
 
 
 def m_mu_write(I, st, fn, ce, args, line, depth, dest_ty, may_unwind):
@@ -701,6 +763,21 @@ def m_mu_write(I, st, fn, ce, args, line, depth, dest_ty, may_unwind):
 
 def m_mu_assume_init(I, st, fn, ce, args, line, depth, dest_ty, may_unwind):
     v = args[0]
+    if v[0] == "agg" and v[2] == "std::mem::MaybeUninit" and v[4] and as_view(I, st, v[4][0]) is not None:
+        # a whole array initialised slot by slot through pointers: every slot must have been written
+        vw = as_view(I, st, v[4][0])
+        items = items_of(I, st, vw)
+        out = []
+        for x in items:
+            if x[0] == "agg" and x[2] == "std::mem::MaybeUninit":
+                if not x[4]:
+                    I.emit(st, {"k": "ASSUME_INIT_UNINIT"}, fn, line)
+                    out.append(interp.UNINIT)
+                else:
+                    out.append(x[4][0])
+            else:
+                out.append(x)
+        return [("ret", make_list(I, st, out), st)]
     if v[0] == "agg" and v[2] == "std::mem::MaybeUninit":
         if not v[4]:
             if dest_ty is not None and dest_ty.get("k") == "array" and getattr(I, "model_vecs", False):
@@ -904,6 +981,10 @@ def install():
     M["std::iter::range::<impl std::iter::Iterator for std::ops::Range<A>>::next"] = m_range_next
     M["std::mem::MaybeUninit::<T>::uninit"] = m_mu_uninit
     M["std::mem::MaybeUninit::<T>::write"] = m_mu_write
+    M["std::mem::MaybeUninit::<T>::as_mut_ptr"] = m_mu_as_mut_ptr
+    M["std::ptr::mut_ptr::<impl *mut T>::add"] = m_ptr_add
+    M["std::ptr::mut_ptr::<impl *mut T>::write"] = m_ptr_write
+    M["std::ptr::write"] = m_ptr_write
     M["std::mem::MaybeUninit::<T>::assume_init"] = m_mu_assume_init
     M["std::array::<impl [T; N]>::map"] = m_array_map
     M["core::array::<impl [T; N]>::map"] = m_array_map
